@@ -21,6 +21,13 @@ R1 = {
         M("algo/KnuthD_MC.tla", "algo/KnuthD_vacuity.cfg", expect_violation="NoAddBack"),
         M("algo/KnuthD_MC.tla", "algo/KnuthD_vacuity_vt.cfg", expect_violation="NoAddBack"),
         M("algo/KnuthD_MC.tla", "algo/KnuthD_vacuity_toponly.cfg", expect_violation="NoTopOnly"),
+        M("algo/KnuthD_MC.tla", "algo/KnuthD_remwide_W2L2Y1.cfg"), M("algo/KnuthD_MC.tla", "algo/KnuthD_remwide_W2L2Y2.cfg"),
+        M("algo/KnuthD_MC.tla", "algo/KnuthD_remwide_W2L3Y1.cfg"), M("algo/KnuthD_MC.tla", "algo/KnuthD_remwide_W2L3Y2.cfg", workers=8),
+        M("algo/KnuthD_MC.tla", "algo/KnuthD_remwide_W2L3Y3.cfg", workers=8),
+        M("algo/KnuthD_MC.tla", "algo/KnuthD_remwide_W2L3Y3_vacuity.cfg", expect_violation="NoAddBack"),
+        M("algo/KnuthD_MC.tla", "algo/KnuthD_remwide_W3L2Y2.cfg", tiers=T, workers=12), M("algo/KnuthD_MC.tla", "algo/KnuthD_remwide_W2L4Y2.cfg", tiers=T, workers=12),
+        M("algo/KnuthD_MC.tla", "algo/KnuthD_remwide_W2L4Y3.cfg", tiers=T, workers=12, timeout=3000), M("algo/KnuthD_MC.tla", "algo/KnuthD_remwide_W2L4Y4.cfg", tiers=T, workers=12, timeout=3000),
+        M("algo/KnuthD_MC.tla", "algo/KnuthD_remwide_W3L3Y2.cfg", tiers=T, workers=12, timeout=3000),
         M("algo/KnuthD_MC.tla", "algo/KnuthD_ct_W3L3.cfg", tiers=T, workers=12),
         M("algo/KnuthD_MC.tla", "algo/KnuthD_vartime_W3L4.cfg", tiers=T, workers=12),
         M("algo/KnuthD_MC.tla", "algo/KnuthD_ct_W4L2Y2.cfg", tiers=T),
